@@ -179,6 +179,34 @@ def _gen_messy_once(rng, maxn, want_kind):
         m = molecule(str(rng.choice(MOLECULES)))
         m.center(vacuum=float(rng.uniform(1, 4)))
         a = m * (int(rng.integers(1, 3)), int(rng.integers(1, 3)), int(rng.integers(1, 3)))
+    elif kind == "surface_ads":
+        # a slab (or a 2D sheet) with adsorbates / a disordered overlayer: partial coverage
+        r = rng.random()
+        size = (int(rng.integers(2, 5)), int(rng.integers(2, 5)), int(rng.integers(2, 5)))
+        vac = float(rng.uniform(4, 8))
+        if r < 0.3:
+            a = fcc100(str(rng.choice(["Cu", "Al", "Ni", "Pt"])), size=size, vacuum=vac)
+        elif r < 0.55:
+            a = fcc111(str(rng.choice(["Cu", "Au", "Ag"])), size=size, vacuum=vac, orthogonal=False)
+        elif r < 0.75:
+            a = bcc100(str(rng.choice(["Fe", "W", "Mo"])), size=size, vacuum=vac)
+        else:
+            a = ase.build.graphene(vacuum=vac) * (int(rng.integers(2, 6)), int(rng.integers(2, 6)), 1)
+        meta["material"] = str(a.get_chemical_formula())
+        while len(a) > max(4, maxn - 6):
+            del a[-1]
+        ztop = a.positions[:, 2].max()
+        n_ads = int(rng.integers(0, max(2, min(len(a), maxn - len(a)) + 1)))
+        c = a.cell.array
+        for _ in range(n_ads):
+            f = rng.random(2)
+            xy = f[0] * c[0] + f[1] * c[1]
+            h = float(rng.uniform(1.0, 2.2)) + (float(rng.uniform(0, 2.0)) if rng.random() < 0.3 else 0.0)
+            a += Atoms(numbers=[int(rng.choice([1, 6, 8]))], positions=[[xy[0], xy[1], ztop + h]])
+        meta["adsorbates"] = n_ads
+    elif kind == "single":
+        L = rng.uniform(3, 12, 3)
+        a = Atoms(numbers=[int(rng.choice(GAS_Z))], positions=[rng.random(3) * L], cell=np.diag(L))
     else:  # sheet2d
         if rng.random() < 0.5:
             a = ase.build.mx2(vacuum=float(rng.uniform(3, 8)))
@@ -264,7 +292,7 @@ def gen_sbc_params(rng, n_atoms=None):
         if rng.random() < 0.4:
             p["max_cell_size"] = float(rng.choice([4, 6, 8]))
         if rng.random() < 0.3:
-            p["merge_threshold"] = float(rng.choice([0.1, 0.5, 0.9]))
+            p["merge_threshold"] = float(rng.choice([0.0, 0.1, 0.5, 0.9, 1.0]))
         if rng.random() < 0.4:
             p["radii"] = str(rng.choice(["covalent", "vdw", "vdw_covalent"]))
     return p
@@ -453,7 +481,17 @@ def gen_crystal(rng, maxn=300, noises=(0, 0.02, 0.05), bulk_share=0.25):
         if pc:
             return None, "pre-noise-" + pc
     recipe["n"] = len(b)
-    return (b, recipe, conv), None
+    return (b, recipe, conv, a), None
+
+
+def represent_crystal(base, recipe, rng):
+    """Another presentation (noise realisation, permutation, rotation,
+    translation) of the same crystal sample, or None if it does not qualify."""
+    noise = recipe.get("noise", 0)
+    b, perm = present(base, noise, rng)
+    if noise and precond(b, margin=0.15 - 2 * noise):
+        return None
+    return b
 
 
 # ---------------------------------------------------------------------------
@@ -520,6 +558,15 @@ def gen_stack(rng, maxn=300):
     pc = precond(st)
     if pc:
         return None, "pre-" + pc
+    pres = present_stack(st, top, noise, rng)
+    if pres is None:
+        return None, "pre-noise"
+    b, SA, SB = pres
+    recipe["n"] = len(b)
+    return (b, recipe, SA, SB, st, top), None
+
+
+def present_stack(st, top, noise, rng):
     b = st.copy()
     if noise:
         d = rng.normal(size=(len(b), 3))
@@ -527,7 +574,7 @@ def gen_stack(rng, maxn=300):
         b.positions += d * noise * rng.random((len(b), 1))
         pc = precond(b, margin=0.15 - 2 * noise)
         if pc:
-            return None, "pre-noise-" + pc
+            return None
     perm = rng.permutation(len(b))
     b = b[perm]
     inv = {int(p): i for i, p in enumerate(perm)}
@@ -536,9 +583,7 @@ def gen_stack(rng, maxn=300):
     if rng.random() < 0.5:
         b.rotate(float(rng.uniform(0, 360)), rng.normal(size=3), rotate_cell=True)
         b.positions += rng.uniform(-5, 5, 3)
-        recipe["rotated"] = True
-    recipe["n"] = len(b)
-    return (b, recipe, SA, SB), None
+    return b, SA, SB
 
 
 # ---------------------------------------------------------------------------
@@ -567,4 +612,4 @@ def gen_monolayer(rng, maxn=300):
     noise = [0.0, 0.02][int(rng.integers(2))]
     b, perm = present(a, noise, rng, rotate=bool(rng.integers(2)))
     recipe = {"family": "monolayer", "material": name, "rep": n, "pbcz": pz, "noise": noise, "n": len(b)}
-    return (b, recipe, u), None
+    return (b, recipe, u, a), None
